@@ -300,6 +300,73 @@ fn prop(model: &Model, ix: &Index, tape: &[u32], st: &mut Stats) -> Result<(), S
     Ok(())
 }
 
+/// Two answers in one message of which only the first fits the response buffer: the first must still
+/// be written and flushed before the transport is asked for more input.
+fn partial_prop(model: &Model, tape: &[u32], st: &mut Stats) -> Result<(), String> {
+    let mut t = Tape::new(tape);
+    let mut env = Env::new(model, 8);
+    let id = |cmd: &str| model.spec.decls.iter().position(|d| d.cmd == cmd).expect("fixture declaration");
+    let (q1, q2) = (id("*IDN?"), id("MEASure:TEMPerature?"));
+    let n = [24usize, 32, 48, 64][t.below(4)];
+    // first answer: "<l1 letters>"\n fits; second pushes the total beyond N
+    let l1 = t.range(0, n - 4);
+    let first_len = l1 + 3;
+    let l2_min = (n + 1).saturating_sub(first_len + 3);
+    let l2 = t.range(l2_min.min(60), 60);
+    if first_len + l2 + 3 <= n {
+        return Ok(());
+    }
+    let text = |t: &mut Tape, n: usize| -> String { (0..n).map(|_| b"abcXYZ019 ,;"[t.below(12)] as char).collect() };
+    env.rets[q1] = vcore::rval::RVal::Str(text(&mut t, l1));
+    env.rets[q2] = vcore::rval::RVal::Str(text(&mut t, l2));
+    let swap = t.chance(1, 3);
+    let stream: Vec<u8> = if swap { b"*IDN?;MEAS:TEMP?\nA 1\n".to_vec() } else { b"*IDN?;:MEASURE:TEMPERATURE?\n*RST\n".to_vec() };
+    if stream.iter().position(|b| *b == b'\n').unwrap() + 1 > n {
+        return Ok(());
+    }
+    let reads = gen_reads(&mut t, stream.len(), n);
+    let po = with_fn!(n, proc_fx, Some(&env), &[], &stream, &reads, None);
+    let first_msg_end = stream.iter().position(|b| *b == b'\n').unwrap() + 1;
+    let typed = [(model.spec.decls[q1].ret.clone(), env.rets[q1].clone())];
+    let mut delivered = 0usize;
+    let mut written: Vec<u8> = Vec::new();
+    let mut dirty = false;
+    for e in adapter_events(&po.log) {
+        match e {
+            Ev::ARead { got, .. } => {
+                if delivered >= first_msg_end {
+                    // the first message is completely delivered: its first answer must be out
+                    let ok = vcore::decode::decode_prefix(&typed[0].0, &typed[0].1, &written)
+                        .map(|k| written.get(k) == Some(&b'\n'))
+                        .unwrap_or(false);
+                    if !ok || dirty {
+                        return Err(format!(
+                            "process::<{}> fed '{}' (reads {:?}): the first answer fits the buffer but '{}' had been written{} when the transport was asked for more input [log: {}]",
+                            n,
+                            esc(&stream),
+                            show_reads(&reads),
+                            esc(&written),
+                            if dirty { " (unflushed)" } else { "" },
+                            show_log(&po.log)
+                        ));
+                    }
+                }
+                delivered += got;
+            }
+            Ev::AWrite(b) => {
+                written.extend_from_slice(&b);
+                dirty = true;
+            }
+            Ev::AFlush => dirty = false,
+            _ => {}
+        }
+    }
+    st.class(&format!("N {}", n));
+    st.nontrivial(&(&stream, n, l1, l2, &reads));
+    st.sample(|| json!({ "stream": esc(&stream), "N": n, "first_answer_len": first_len, "second_answer_len": l2 + 3 }));
+    Ok(())
+}
+
 fn main() {
     let mut h = Harness::from_args("C10");
     let spec = vrun::spec_of(fixture::fx::SPEC_JSON);
@@ -314,6 +381,14 @@ fn main() {
         false,
         |h, st| h.tape_search("c10.answers_and_faults", cases, 240, st, |tape, st| prop(&model, &ix, tape, st)),
         |case| replay_tape(case, |tape, st| prop(&model, &ix, tape, st)),
+    );
+    let cases = h.tier.pick(40_000, 1_000_000);
+    h.check(
+        "c10.first_answer_when_the_second_does_not_fit",
+        "proptest tapes -> one message with two string queries whose answers together exceed the N-byte response buffer while the first fits (N in 24,32,48,64), followed by another message, random read schedule: when the transport is asked for input after the first message is completely delivered, the first answer (decoded) must have been written and flushed; non-trivial = every case",
+        false,
+        |h, st| h.tape_search("c10.first_answer_when_the_second_does_not_fit", cases, 120, st, |tape, st| partial_prop(&model, tape, st)),
+        |case| replay_tape(case, |tape, st| partial_prop(&model, tape, st)),
     );
     h.finish();
 }
